@@ -67,6 +67,7 @@ type Contract struct {
 	Expect    string // expected signature string (pin for ordinal-keyed closures)
 	Names     []string // parameter names override (external functions)
 	Reads     bool     // pure function may read the heap (re-evaluated per state)
+	Unverified bool    // in-repo contract whose body is not (yet) verified: an assumption
 	External  bool
 }
 
@@ -267,6 +268,9 @@ func (w *World) parseContractFile(path string) error {
 			cur.Reads = true
 		case "trusted":
 			cur.Trusted = true
+		case "unverified":
+			cur.Unverified = true
+			cur.Trusted = true
 		case "inline":
 			cur.Inline = true
 		case "overflow":
@@ -279,6 +283,15 @@ func (w *World) parseContractFile(path string) error {
 			cur.Expect = rest
 		case "names":
 			cur.Names = strings.Fields(rest)
+		case "globalinv":
+			i := strings.Index(rest, ":")
+			if i < 0 {
+				return fail("bad globalinv")
+			}
+			if w.globalInvs == nil {
+				w.globalInvs = map[string]*Clause{}
+			}
+			w.globalInvs[strings.TrimSpace(rest[:i])] = &Clause{Label: "globalinv", Text: strings.TrimSpace(rest[i+1:]), File: path, Line: lineNo}
 		case "typeinv":
 			i := strings.Index(rest, ":")
 			if i < 0 {
